@@ -272,51 +272,55 @@ func (p *part) Delete(v int) {
 func (p *part) AssignIndex(i int) { p.idx = i }
 func (p *part) Index() int        { return p.idx }
 
-func checkPPQ() int {
+// checkPPQ: values 0..nVals-1, partition = v % nParts; ops: push v (0..nVals-1), pop (nVals),
+// delete v (nVals+1..2*nVals); every sequence of ops up to maxLen.
+func checkPPQ(nParts, nVals, maxLen int) int {
 	n := 0
-	// values 0..5, partition = v % 3; ops: push v (0..5), pop (6), delete v (7..12)
 	var ops []int
 	var run func(depth int)
 	check := func() {
-		parts := []ds.QueuePartition[int]{&part{}, &part{}, &part{}}
-		q := ds.NewPartitionedPriorityQueue(parts, func(a, b int) int { return cmp.Compare(a, b) }, func(v int) int { return v % 3 })
+		parts := make([]ds.QueuePartition[int], nParts)
+		for i := range parts {
+			parts[i] = &part{}
+		}
+		q := ds.NewPartitionedPriorityQueue(parts, func(a, b int) int { return cmp.Compare(a, b) }, func(v int) int { return v % nParts })
 		var ref []int
 		for i, op := range ops {
 			switch {
-			case op < 6:
+			case op < nVals:
 				q.Push(op)
 				ref = append(ref, op)
 				sort.Ints(ref)
-			case op == 6:
+			case op == nVals:
 				v, ok := q.Pop()
 				if ok != (len(ref) > 0) || (ok && v != ref[0]) {
-					fail("ds.PartitionedPriorityQueue", "Pop disagrees with the sorted reference", map[string]any{"ops (0..5 push v, 6 pop, 7..12 delete v-7)": ops[:i+1], "got": v, "ok": ok, "reference": ref})
+					fail("ds.PartitionedPriorityQueue", "Pop disagrees with the sorted reference", map[string]any{"partitions": nParts, "values": nVals, "ops (v < values: push v; v == values: pop; else delete v-values-1)": ops[:i+1], "got": v, "ok": ok, "reference": ref})
 				}
 				if ok {
 					ref = ref[1:]
 				}
 			default:
-				v := op - 7
+				v := op - nVals - 1
 				q.Delete(v)
 				if j := slices.Index(ref, v); j >= 0 {
 					ref = slices.Delete(ref, j, j+1)
 				}
 			}
 			if v, ok := q.Peek(); ok != (len(ref) > 0) || (ok && v != ref[0]) {
-				fail("ds.PartitionedPriorityQueue", "Peek disagrees with the sorted reference", map[string]any{"ops (0..5 push v, 6 pop, 7..12 delete v-7)": ops[:i+1], "got": v, "ok": ok, "reference": ref})
+				fail("ds.PartitionedPriorityQueue", "Peek disagrees with the sorted reference", map[string]any{"partitions": nParts, "values": nVals, "ops (v < values: push v; v == values: pop; else delete v-values-1)": ops[:i+1], "got": v, "ok": ok, "reference": ref})
 			}
 			if q.IsEmpty() != (len(ref) == 0) {
-				fail("ds.PartitionedPriorityQueue", "IsEmpty disagrees with the reference", map[string]any{"ops (0..5 push v, 6 pop, 7..12 delete v-7)": ops[:i+1], "reference": ref})
+				fail("ds.PartitionedPriorityQueue", "IsEmpty disagrees with the reference", map[string]any{"partitions": nParts, "values": nVals, "ops (v < values: push v; v == values: pop; else delete v-values-1)": ops[:i+1], "reference": ref})
 			}
 		}
 		n++
 	}
 	run = func(depth int) {
 		check()
-		if depth == 5 {
+		if depth == maxLen {
 			return
 		}
-		for op := 0; op < 13; op++ {
+		for op := 0; op < 2*nVals+1; op++ {
 			ops = append(ops, op)
 			run(depth + 1)
 			ops = ops[:len(ops)-1]
@@ -346,6 +350,6 @@ func main() {
 		fmt.Printf("  ok   bounded/heap %d sequences: every Push/Pop sequence up to length 8 over 3 values agrees with a sorted slice (Pop, Peek, Size)\n", checkHeap())
 	}
 	if which == "ppq" || which == "all" {
-		fmt.Printf("  ok   bounded/ppq %d sequences: every Push/Pop/Delete sequence up to length 5 over 6 values in 3 partitions agrees with a sorted slice (Pop, Peek, IsEmpty)\n", checkPPQ())
+		fmt.Printf("  ok   bounded/ppq %d sequences: every Push/Pop/Delete sequence up to length 5 over 6 values in 3 partitions, and up to length 4 over 7 values in 5 partitions, agrees with a sorted slice (Pop, Peek, IsEmpty)\n", checkPPQ(3, 6, 5)+checkPPQ(5, 7, 4))
 	}
 }
